@@ -126,6 +126,7 @@ def e_pdf(): return E("application/pdf", P("bytes"), {"type": "string", "format"
 def e_png(): return E("image/png", None, None, {"bin": True})
 def e_sse(): return E("text/event-stream", T_ITEM, {"$ref": "#/components/schemas/Item"}, {"sse": True})
 def e_ndjson(): return E("application/x-ndjson", T_ITEM, {"$ref": "#/components/schemas/Item"}, {"ndjson": True})
+def e_jsonseq(): return E("application/json-seq", T_ITEM, {"$ref": "#/components/schemas/Item"}, {"jsonseq": True})
 
 
 def RESP(code: str, *entries: dict) -> dict:
@@ -141,7 +142,9 @@ def fixed_modules() -> list[list[list[dict]]]:
         [[RESP("200", e_png())]],
         [[RESP("200", e_octet())]], [[RESP("200", e_pdf())]],
         [[RESP("200", e_sse())]],
-        [[RESP("200", e_ndjson())]],                                           # F05f
+        [[RESP("200", e_ndjson())]],                                           # fixed part of F05f: read with iter_ndjson
+        [[RESP("200", e_jsonseq())]],                                          # F05f (json-seq still read with the SSE parser)
+        [[RESP("200", e_ndjson()), RESP("201", e_json(k=0)), RESP("204")]],
         [[RESP("2XX", e_json(k=0))]],                                          # F05g
         [[RESP("200", e_json(k=0)), RESP("201", e_json(k=1)), RESP("202"), RESP("404", e_json(k=0))]],
         [[RESP("200", e_json(k=0)), RESP("201", e_text())]],                   # F05c secondary text
@@ -172,7 +175,7 @@ def gen_resp(rng, code: str) -> dict:
     if r < 0.75:
         return RESP(code, rng.choice([e_octet, e_pdf, e_png])())
     if r < 0.80:
-        return RESP(code, rng.choice([e_sse, e_ndjson])())
+        return RESP(code, rng.choice([e_sse, e_ndjson, e_ndjson, e_jsonseq])())
     # several content types on one response
     pool = [lambda: e_json(rng), lambda: e_text(), lambda: e_text("text/csv"), e_png,
             lambda: e_json(rng, media="application/vnd.api+json"), e_pdf]
@@ -244,6 +247,9 @@ NDJSON_WIRES: dict[str, tuple[bytes, int]] = {
     "crlf": (NDJSON_BODY.replace(b"\n", b"\r\n"), 0),
     "compact_chunk3": (b'{"id":1,"name":"n"}\n{"id":2,"name":"m"}\n', 3),
 }
+JSONSEQ_WIRES: dict[str, tuple[bytes, int]] = {
+    "rs_lf": (b'\x1e{"id": 1, "name": "n"}\n\x1e{"id": 2, "name": "m"}\n', 0),
+}
 BIN_WIRES: dict[str, tuple[bytes, int]] = {"whole": (BIN_BODY, 0), "chunk2": (BIN_BODY, 2)}
 
 
@@ -251,7 +257,8 @@ def wires_of(e: dict | None) -> dict[str, tuple[bytes, int]] | None:
     if e is None:
         return None
     b = e["body"]
-    return SSE_WIRES if "sse" in b else NDJSON_WIRES if "ndjson" in b else BIN_WIRES if "bin" in b else None
+    return (SSE_WIRES if "sse" in b else NDJSON_WIRES if "ndjson" in b else JSONSEQ_WIRES if "jsonseq" in b
+            else BIN_WIRES if "bin" in b else None)
 
 
 def body_bytes(e: dict | None, wire: str | None = None) -> bytes:
@@ -439,6 +446,12 @@ def block_path(lines: list[str], ct: str) -> list:
         return ["PStreamBytes"]
     if lines[0].startswith("async for chunk in iter_sse_events_text(response)"):
         return ["PStreamSse"]
+    if lines[0].startswith("async for item in iter_ndjson(response)"):
+        if len(lines) > 1 and lines[1] == "yield item":
+            return ["PStreamNdjson", False]
+        if len(lines) > 1 and lines[1].startswith("yield structure_from_dict(item, "):
+            return ["PStreamNdjson", True]
+        return ["?", lines[1] if len(lines) > 1 else "empty"]
     return stmt_path(lines[0])
 
 
@@ -556,7 +569,7 @@ def oracle(inp: dict, run: list, annotation: str = "Any") -> list[str]:
         ok = (run[0] == "ret" and run[2] is None) or (run[0] == "stream" and run[2] == [])
         return [] if ok else [f"{what}: expected None / an empty iteration, got {run[1]}"]
     b = e["body"]
-    if "sse" in b or "ndjson" in b:
+    if "sse" in b or "ndjson" in b or "jsonseq" in b:
         if run[0] != "stream":
             return [f"{what}: not an async iterator"]
         return [] if run[2] == [ITEM, ITEM2] else [f"{what}: stream yielded {len(run[2])} item(s), the server sent 2"]
@@ -659,6 +672,8 @@ def c_cop(op: list[dict]) -> str:
 def c_path(p: list) -> str:
     if p[0] == "PStructure":
         return f"(PStructure {cstr(p[1])})"
+    if p[0] == "PStreamNdjson":
+        return f"(PStreamNdjson {cbool(p[1])})"
     if p[0] == "?":
         return "PGenError"
     return p[0]
